@@ -49,6 +49,11 @@ type Ev struct {
 type Fault struct {
 	Table string `json:"table"` // block root rht bridge claim tm legacy
 	K     int    `json:"k"`     // the k-th write (0-based) to that table in this ProcessBlock fails
+	// Cancel: instead of failing, the k-th write is made SLOW (a trigger that counts a few million rows) and the context
+	// ProcessBlock was called with is cancelled while it runs: database/sql then rolls the transaction back on its own,
+	// every later statement (or the commit) fails, and db.Tx.Rollback returns an error, so the rollback callbacks are NOT
+	// run. As in production (a cancelled context is a shutdown) the processor is then closed and reopened.
+	Cancel bool `json:"cancel,omitempty"`
 }
 
 type Op struct {
@@ -207,6 +212,32 @@ func installFault(db *sql.DB, f *Fault) {
 		}
 	}
 }
+// installSlow makes the k-th write to the table take a few hundred milliseconds (no failure).
+func installSlow(db *sql.DB, f *Fault) {
+	tbl, ok := faultTables[f.Table]
+	if !ok {
+		panic("bad fault table " + f.Table)
+	}
+	k := f.K
+	if f.Table == "rht" {
+		k = 32*f.K + 5
+	}
+	stmts := []string{
+		`DROP TABLE IF EXISTS verif_cnt`,
+		`CREATE TABLE verif_cnt (n INTEGER)`,
+		`INSERT INTO verif_cnt VALUES (0)`,
+		fmt.Sprintf(`CREATE TRIGGER verif_fault BEFORE INSERT ON %s BEGIN
+			SELECT (WITH RECURSIVE c(x) AS (SELECT 1 UNION ALL SELECT x+1 FROM c WHERE x < 3000000) SELECT count(*) FROM c)
+			  WHERE (SELECT n FROM verif_cnt) = %d;
+			UPDATE verif_cnt SET n = n + 1; END`, tbl, k),
+	}
+	for _, s := range stmts {
+		if _, err := db.Exec(s); err != nil {
+			panic(fmt.Sprintf("installSlow %q: %v", s, err))
+		}
+	}
+}
+
 func removeFaultQuiet(db *sql.DB) {
 	for _, s := range []string{`DROP TRIGGER IF EXISTS verif_fault`, `DROP TABLE IF EXISTS verif_cnt`} {
 		db.Exec(s) //nolint:errcheck
@@ -222,6 +253,7 @@ func removeFault(db *sql.DB) {
 }
 
 type runner struct {
+	cancelWaitMs []int64 // how long each cancelled ProcessBlock took to return (evidence that the slow statement was running)
 	ctx       context.Context
 	path      string
 	s         *bridgesync.BridgeSync
@@ -581,6 +613,30 @@ func runOps(dir string, name string, ops []Op, proofs string, maxDC int64) (res 
 					r.allLeaves = append(r.allLeaves, pending[e.DC])
 				}
 				blk.Events = append(blk.Events, ev)
+			}
+			if op.Fault != nil && op.Fault.Cancel {
+				installSlow(bridgesync.VerifDB(r.s), op.Fault)
+				cctx, cancel := context.WithCancel(r.ctx)
+				done := make(chan error, 1)
+				t0 := time.Now()
+				go func() { done <- bridgesync.VerifProcessBlock(cctx, r.s, blk) }()
+				time.AfterFunc(40*time.Millisecond, cancel)
+				err := <-done
+				cancel()
+				r.cancelWaitMs = append(r.cancelWaitMs, time.Since(t0).Milliseconds())
+				removeFault(bridgesync.VerifDB(r.s))
+				if err == nil {
+					for k, v := range pending {
+						r.leaves[k] = v
+					}
+					res = append(res, "ok")
+				} else {
+					res = append(res, "fault")
+				}
+				// a cancelled context is a shutdown: new processor object on the same database
+				bridgesync.VerifClose(r.s)
+				r.open()
+				break
 			}
 			if op.Fault != nil {
 				installFault(bridgesync.VerifDB(r.s), op.Fault)
